@@ -154,6 +154,17 @@ def run_case(case: dict) -> list[tuple[str, str]]:
         fails += agree(parse_all(gb))
         if gb != rb:
             fails += agree(parse_all(rb))
+        if case["frame_size"] == 250 and len(seq) >= 2:
+            # the same rows with a frame per row (frames that hold lookup entries only, or only
+            # the start / end of a graph)
+            from mc import jwire  # noqa: PLC0415
+
+            rows = [r for f in jwire.read_delimited(gb) for r in f["rows"]]
+            recut = jwire.write_delimited([jwire.enc_frame([r]) for r in rows])
+            res = parse_all(recut)
+            res[("generic", "grouped")] = res[("generic", "flat")]  # (sinks per frame differ
+            res[("rdflib", "grouped")] = res[("rdflib", "flat")]    #  by design; C07's business)
+            fails += [(k + "-recut", m) for k, m in agree(res, recut)]
         return fails
     ch = choice.Chooser(case["choices"])
     data, delimited, _ = jrefenc.encode(ch, seq, PT[cls], tuple(case["preset"]))
@@ -191,8 +202,8 @@ def run_nsgroup(case: dict) -> list[tuple[str, str]]:
     outs = []
     for ser, items in ((gser, sinks), (rser, graphs)):
         opts = DR.make_options(cls, tuple(case["preset"]), case["frame_size"], True,
-                               RR.GROUPED_LT[cls], generalized=False, rdf_star=False,
-                               ns=case.get("ns", True))
+                               None if case.get("flat") else RR.GROUPED_LT[cls],
+                               generalized=False, rdf_star=False, ns=case.get("ns", True))
         out = io.BytesIO()
         try:
             ser.grouped_stream_to_file((x for x in items), out, options=opts)
@@ -224,12 +235,16 @@ def nsgroup_shard(job) -> dict:
         for b1 in bind_lists:
             for b2 in bind_lists:
                 bl = [b1, b2, b1][: len(parts)]
-                for fs, ns in ((1, True), (250, True), (250, False)):
+                for fs, ns, flat in ((1, True, False), (250, True, False), (250, False, False),
+                                     (2, True, True), (16, True, True)):
                     if not ns and (b1 or b2):
                         continue  # (without declarations the bindings play no part)
+                    if flat and not parts[0]:
+                        continue  # (the generic entry point guesses the stream class from the
+                        #            first container and refuses an empty one for FLAT_TRIPLES)
                     case = {"kind": "nsgroup", "cls": cls, "preset": list(preset), "frame_size": fs,
                             "parts": [list(p) for p in parts], "bindings": [list(b) for b in bl],
-                            "ns": ns}
+                            "ns": ns, "flat": flat}
                     alpha = RR.alphabet("r_prefix", cls)
                     if not all(AL.fits(alpha[i], preset) for p in parts for i in p):
                         acc.counters["out_of_domain"] += 1
